@@ -20,6 +20,14 @@ pub enum Op {
     /// Envelope::try_from and added as the object of an assertion; variant 0 declares its digest properly,
     /// the others carry no usable digest declaration and must be refused
     Import(u8, u8),
+    /// add_assertions / add_assertion_envelopes with an array that names an assertion twice (plain, or
+    /// once in obscured form): the set semantics hold inside one call as well
+    AddBulk(Spec, Spec, u8, u8),
+    /// replace_assertion(a, a') where a' has the digest of a (a itself, or an obscured rendition)
+    ReplaceSame(usize, Option<Obs>),
+    /// a compressed / encrypted element with a proper digest declaration whose CONTENT is a node that is
+    /// not canonical (repeated or out-of-order assertion elements), imported and opened: must be refused
+    ImportOpen(u8, u8),
     AddDup(usize),
     AddDupObscured(usize, Obs),
     Remove(usize),
@@ -55,6 +63,9 @@ impl Op {
             Op::Add(_) => "add",
             Op::AddInvalid(..) => "add-non-assertion",
             Op::Import(..) => "import-obscured",
+            Op::AddBulk(..) => "add-bulk-with-repeats",
+            Op::ReplaceSame(..) => "replace-by-equal",
+            Op::ImportOpen(..) => "import-and-open-noncanonical",
             Op::AddDup(_) => "add-duplicate",
             Op::AddDupObscured(..) => "add-duplicate-obscured",
             Op::Remove(_) => "remove",
@@ -111,6 +122,9 @@ impl Op {
             Op::AddInvalid(s, k) => format!("add-non-assertion(kind {}, {})", k, bridge::spec_model(s).show()),
             Op::Import(k, v) => format!("import-{}(declaration variant {})", if *k == 0 { "encrypted-message" } else { "compressed" }, v),
             Op::Replace(i, s) => format!("replace(#{}, {})", i, bridge::spec_model(s).show()),
+            Op::AddBulk(a, b, pat, api) => format!("add-bulk(pattern {}, api {}, {}, {})", pat, api, bridge::spec_model(a).show(), bridge::spec_model(b).show()),
+            Op::ReplaceSame(i, o) => format!("replace-by-equal(#{}, {:?})", i, o),
+            Op::ImportOpen(k, v) => format!("import-and-open-{}(content variant {})", if *k == 0 { "encrypted" } else { "compressed" }, v),
             Op::ReplaceSubject(s) => format!("replace_subject({})", bridge::spec_model(s).show()),
             Op::ElideSet { targets, reveal, action } => format!(
                 "elide_{}_set({:?}, [{}])",
@@ -166,6 +180,14 @@ pub fn gen_op(src: &mut Src, m: &M) -> Op {
     if first >= 238 {
         let kind = src.below(2) as u8;
         return Op::Import(kind, if kind == 0 { src.below(7) as u8 } else { src.below(2) as u8 });
+    }
+    if first >= 226 {
+        return match first {
+            226..=229 => Op::AddBulk(small_assertion(src), small_assertion(src), src.below(5) as u8, src.below(2) as u8),
+            230..=233 if n_as > 0 => Op::ReplaceSame(src.below(n_as), match src.below(4) { 0 => None, 1 => Some(Obs::Elide), 2 => Some(Obs::Compress), _ => Some(Obs::Encrypt) }),
+            230..=233 => Op::AddBulk(small_assertion(src), small_assertion(src), 0, 0),
+            _ => Op::ImportOpen(src.below(2) as u8, src.below(5) as u8),
+        };
     }
     let w = [
         14, // add
@@ -459,6 +481,104 @@ pub fn apply(e: &Envelope, m: &M, op: &Op) -> Applied {
                 let predicted = if *variant == 0 { Predicted::Exactly(m.add(M::assertion(M::text("imported"), M::Compressed(d, raw)))) } else { Predicted::Error };
                 Applied { result, predicted }
             }
+        }
+        Op::AddBulk(sa, sb, pattern, api) => {
+            let a = bridge::build_a(sa, &mut Src::new(&[]));
+            let b = bridge::build_a(sb, &mut Src::new(&[]));
+            let am = bridge::spec_model(sa);
+            let bm = bridge::spec_model(sb);
+            // (array, the rendition of `a` that comes first)
+            let (arr, first_a): (Vec<Envelope>, M) = match pattern % 5 {
+                0 => (vec![a.clone(), a.clone()], am.clone()),
+                1 => (vec![a.clone(), b.clone(), a.clone()], am.clone()),
+                2 => (vec![a.clone(), a.elide()], am.clone()),
+                3 => match a.compress() {
+                    Ok(c) => (vec![c, a.clone(), b.clone()], model_compressed(&am)),
+                    Err(_) => (vec![a.clone(), b.clone()], am.clone()),
+                },
+                _ => (vec![a.elide(), b.clone(), a.clone()], M::Elided(am.digest())),
+            };
+            let with_b = matches!(pattern % 5, 1 | 3 | 4);
+            let mut pm = m.add(first_a);
+            if with_b {
+                pm = pm.add(bm);
+            }
+            let result = if *api == 0 { Ok(e.add_assertions(&arr)) } else { e.add_assertion_envelopes(&arr).map_err(|r| r.to_string()) };
+            Applied { result, predicted: Predicted::Exactly(pm) }
+        }
+        Op::ReplaceSame(i, o) => {
+            let old = e.assertions()[*i].clone();
+            let om = m.assertions().iter().find(|x| bridge::dig(&x.digest()) == old.digest().into_owned()).cloned();
+            let d = bridge::d32(&old.digest());
+            let (newe, newm): (Envelope, Option<M>) = match o {
+                None => (old.clone(), om.clone()),
+                Some(Obs::Elide) => (old.elide(), Some(M::Elided(d))),
+                Some(Obs::Compress) => match (old.compress(), &om) {
+                    (Ok(c), Some(x)) if !x.is_obscured() => (c, Some(model_compressed(x))),
+                    _ => (old.clone(), om.clone()),
+                },
+                Some(Obs::Encrypt) => {
+                    // the whole assertion element encrypted through the action form
+                    let x = old.elide_removing_target_with_action(&old, &ObscureAction::Encrypt(key.clone()));
+                    if x.is_encrypted() && !old.is_encrypted() {
+                        (x, None)
+                    } else {
+                        (old.clone(), om.clone())
+                    }
+                }
+            };
+            let predicted = match newm {
+                Some(nm) => Predicted::Exactly(m.remove(&d).add(nm)),
+                // ciphertext made by the library (random nonce): not predicted byte for byte
+                None => Predicted::Unpredicted,
+            };
+            Applied { result: e.replace_assertion(old, newe).map_err(|r| r.to_string()), predicted }
+        }
+        Op::ImportOpen(kind, variant) => {
+            // subject and three assertions, written out by the harness encoder in a non-canonical arrangement
+            let subj = M::text("imported subject");
+            let mut asr: Vec<M> = (0..3).map(|i| M::assertion(M::text("k"), M::text(&format!("v{}", i)))).collect();
+            asr.sort_by_key(|x| x.digest());
+            let arranged: Vec<M> = match variant % 5 {
+                0 => vec![asr[0].clone(), asr[1].clone(), asr[1].clone()],          // repeat, not involving the first
+                1 => vec![asr[0].clone(), asr[2].clone(), asr[1].clone()],          // inversion, not involving the first
+                2 => vec![asr[0].clone(), asr[0].clone(), asr[1].clone()],          // repeat of the first
+                3 => vec![asr[1].clone(), asr[0].clone(), asr[2].clone()],          // inversion at the front
+                _ => vec![asr[0].clone(), asr[1].clone(), M::Elided(asr[1].digest())], // repeat through an elided copy
+            };
+            // bytes of 200([subject, a, b, c]) exactly as arranged
+            let mut content: Vec<u8> = vec![0xd8, 0xc8, 0x84];
+            content.extend(subj.untagged());
+            for a in &arranged {
+                content.extend(a.untagged());
+            }
+            // the digest such content would be given: over the elements as they stand, and over the sorted
+            // distinct ones - the element is offered under both declarations
+            let as_given = M::Node(Box::new(subj.clone()), arranged.clone()).digest();
+            let mut distinct: Vec<M> = Vec::new();
+            for a in &arranged {
+                if !distinct.iter().any(|x| x.digest() == a.digest()) {
+                    distinct.push(a.clone());
+                }
+            }
+            let canonical = M::Node(Box::new(subj.clone()), distinct).digest();
+            let mut last: Result<Envelope, String> = Err("not tried".into());
+            for d in [as_given, canonical] {
+                let opened: Result<Envelope, String> = if *kind == 0 {
+                    let msg = key.encrypt_with_digest(content.clone(), bridge::dig(&d), Some(bc_components::Nonce::from_data_ref([9u8; 12]).unwrap()));
+                    Envelope::try_from(msg).map_err(|r| r.to_string()).and_then(|x| x.decrypt_subject(&key).map_err(|r| r.to_string()))
+                } else {
+                    let c = Compressed::from_uncompressed_data(content.clone(), Some(bridge::dig(&d)));
+                    Envelope::try_from(c).map_err(|r| r.to_string()).and_then(|x| x.uncompress().map_err(|r| r.to_string()))
+                };
+                if let Ok(x) = opened {
+                    last = Ok(e.add_assertion("opened", x));
+                    break;
+                } else {
+                    last = opened;
+                }
+            }
+            Applied { result: last, predicted: Predicted::Error }
         }
         Op::AddDup(i) => {
             let a = e.assertions()[*i].clone();
